@@ -22,6 +22,7 @@ struct Step {
     send: Vec<Vec<u8>>,
     close: bool,
     stall_ms: u64,
+    pre_ms: u64,  // before starting to wait for this step: do not read at all for this long (the client's writes meet full buffers)
     slow_us: u64, // while waiting for this step: read at most 2 KiB at a time and pause this long after each read (back-pressure on the client's writes)
 }
 
@@ -38,6 +39,7 @@ fn parse_steps(v: &Value) -> Vec<Step> {
             close: s["close"].as_bool().unwrap_or(false),
             stall_ms: s["stall_ms"].as_u64().unwrap_or(0),
             slow_us: s["slow_us"].as_u64().unwrap_or(0),
+            pre_ms: s["pre_ms"].as_u64().unwrap_or(0),
         })
         .collect()
 }
@@ -82,6 +84,7 @@ fn serve_conn(mut sock: TcpStream, steps: Vec<Step>, read_cap: Duration) -> Serv
     let mut tmp = [0u8; 65536];
     let mut write_closed = false;
     for st in steps.iter() {
+        if st.pre_ms > 0 { std::thread::sleep(Duration::from_millis(st.pre_ms)); }
         // wait for the trigger
         let t0 = Instant::now();
         let unit: Option<Vec<u8>> = loop {
